@@ -254,10 +254,20 @@ Message *Message::factory(const F8MetaCntx& ctx, const f8String& from, bool no_c
 #if defined FIX8_CODECTIMING
 	_codec_timings.start(sw_decode_time);
 #endif
-	msg->decode(from, hlen, 7, permissive_mode); // skip already decoded mandatory 8, 9, 35 and 10
+	const unsigned consumed(msg->decode(from, hlen, 7, permissive_mode)); // skip already decoded mandatory 8, 9, 35 and 10
 #if defined FIX8_CODECTIMING
 	_codec_timings.stop(sw_decode_time);
 #endif
+
+	// header, body and trailer each stop at the first field that is not theirs; what the trailer leaves over is a field
+	// that is unknown or not defined at the place where it stands, and nothing from there on has been decoded
+	if (!permissive_mode && consumed + 7 != from.size())
+	{
+		char tag[MAX_MSGTYPE_FIELD_LEN], val[FIX8_MAX_FLD_LENGTH];
+		const unsigned rest(consumed + 7 < from.size() ? static_cast<unsigned>(from.size()) - 7 - consumed : 0);
+		const unsigned tv(extract_element(from.data() + consumed, rest, tag, val) ? fast_atoi<unsigned>(tag) : 0);
+		throw UnknownField(tv);
+	}
 
 	msg->_header->get_body_length()->set(mlen);
 	msg->_header->get_msg_type()->set(mtype);
